@@ -181,11 +181,40 @@ def rpcfail_points(base_steps):
     return out
 
 
-def stray_points(base_steps, sc, rng, limit):
+def stray_points(base_steps, sc, rng, limit, obs=None):
+    """Injection points (prefix length, actor, stray kind). With the observations of the base run the points at which
+    ServerCore.StrayAllowed cannot hold are left out beforehand (the driver checks the exact rule again), and the sample is
+    stratified: every (stray kind, state of the addressed actor) pair that occurs is kept at least once."""
     out = []
     nc, n = len(sc["pol"]), sc["n"]
     kinds = ["Schedule", "Run", "Consts", "Validate", "MsgBad", "MsgEarly", "RunEarly", "ConstsBad", "MsgSelf"]
     pts = [(k, c, p, t) for k in range(len(base_steps) + 1) for c in range(1, nc + 1) for p in range(n) for t in kinds]
+    if obs is not None:
+        notyet = ("Init", "AwaitingValidation", "ValidateRequested")
+
+        def kind_at(k, c, p):
+            o = obs[min(k, len(obs) - 1)]
+            if not o:
+                return "Init"
+            return next((a["kind"] for a in o["actors"] if a["c"] == c and a["p"] == p), "Init")
+
+        def may(k, c, p, t):
+            kd = kind_at(k, c, p)
+            if t in ("Run", "Consts"):
+                return kd in notyet
+            if t == "Validate":
+                return kd not in ("Init", "AwaitingValidation", "Stopped")
+            if t == "RunEarly":
+                return kd in notyet and sc["pol"][c - 1][p]["leader"] == p
+            return True
+        pts = [x for x in pts if may(*x)]
+        if limit and len(pts) > limit:
+            seen, keep, rest = set(), [], []
+            for x in rng.sample(pts, len(pts)):
+                key = (x[3], kind_at(x[0], x[1], x[2]))
+                (rest if key in seen else keep).append(x)
+                seen.add(key)
+            pts = keep + rest[:max(0, limit - len(keep))]
     if limit and len(pts) > limit:
         pts = rng.sample(pts, limit)
     for (k, c, p, t) in pts:
@@ -193,11 +222,23 @@ def stray_points(base_steps, sc, rng, limit):
     return out
 
 
-def base_run(wd, sc, rng, seed, name):
-    """One fault-free random run; returns its step list."""
+def base_run(wd, sc, rng, seed, name, with_obs=False):
+    """One fault-free random run; returns its step list (and, on request, the observation after each step)."""
     sc0 = dict(sc, faults={"cancel": 0, "rpcfail": 0, "stray": 0})
     out = vlib.run_pt("server", [mkjob(name, sc0, rng, seed=seed)], wd, name=name, threads=1)
-    return [e["step"] for e in vlib.read_ndjson(out) if e["ev"] == "step"]
+    evs = list(vlib.read_ndjson(out))
+    steps = [e["step"] for e in evs if e["ev"] == "step"]
+    if not with_obs:
+        return steps
+    # obs[k] = observation in force after k steps (obs[0]: before the first step)
+    obs, last = [], None
+    for e in evs:
+        if e["ev"] == "obs":
+            last = e
+        elif e["ev"] == "step":
+            obs.append(last)
+    obs.append(last)
+    return steps, obs
 
 
 # ---------------------------------------------------------------------------
@@ -238,6 +279,9 @@ def scenarios(prop, tier, rng):
         out.append(("n2", scen(n=2, stray=1)))
         out.append(("n2b", scen(n=2, leader=1, consts=[False, False], stray=1)))
         out.append(("n3", scen(n=3, leader=1, consts=[True, False, True], stray=1)))
+        # the followers are scheduled late: the leader's validate request is already stored when stray commands arrive
+        out.append(("n2late", scen(n=2, leader=0, stray=1, late=[1])))
+        out.append(("n3late", scen(n=3, leader=2, consts=[False, True, False], stray=1, late=[0, 1])))
         if not q:
             out.append(("n2s2", scen(n=2, stray=2)))
             out.append(("n3b", scen(n=3, leader=0, consts=[False, False, False], out=[True, False, True], stray=1)))
@@ -247,12 +291,15 @@ def scenarios(prop, tier, rng):
         out.append(("n3", scen(n=3, leader=2, consts=[True, False, False], out=[True, True, False], cancel=1)))
         # cancel together with a failing coordination call (a notification may already have been sent)
         out.append(("n2cf", scen(n=2, cancel=1, rpcfail=1)))
+        # two computations of one leader on one permit: cancel also reaches a leader that is waiting for its permit
+        out.append(("n2k2", scen(n=2, comps=2, leader=[0, 0], conc=[1, 1], cancel=1)))
+        out.append(("n2late", scen(n=2, leader=1, cancel=1, late=[0])))
         # all three kinds of disturbance in one run (every invariant of C13-C17 is checked on the model for it)
         out.append(("mix2", scen(n=2, cancel=1, rpcfail=1, stray=1)))
         if not q:
             out.append(("n2c2", scen(n=2, cancel=2)))
             out.append(("n3b", scen(n=3, leader=0, consts=[False, False, False], cancel=1)))
-            out.append(("n2k2", scen(n=2, comps=2, leader=[0, 0], conc=[1, 1], cancel=1)))
+            out.append(("n2k2b", scen(n=2, comps=2, leader=[1, 1], conc=[1, 1], cancel=1, out=[False, True])))
     elif prop == "C16":
         def pol(n, leader, bad=None, what=None, consts=None):
             ps = [S.policy(leader, "A", True, (consts or [True] * n)[p], True) for p in range(n)]
@@ -398,8 +445,8 @@ def check_server(prop, tier, replay):
                 for ci, steps in enumerate(cancel_points(base, sc, rng, 10 if q else 40)):
                     jobs.append(mkjob(f"{prop}.{name}.m{ci}", sc, rng, steps=steps, seed=ci, runtime="multi"))
         if prop == "C14":
-            base = base_run(wd, sc, rng, v.seed + si, f"base{si}")
-            for ci, (pre, inj) in enumerate(stray_points(base, sc, rng, 60 if q else 400)):
+            base, bobs = base_run(wd, sc, rng, v.seed + si, f"base{si}", with_obs=True)
+            for ci, (pre, inj) in enumerate(stray_points(base, sc, rng, 60 if q else 400, obs=bobs)):
                 jobs.append(mkjob(f"{prop}.{name}.s{ci}", sc, rng, steps=pre + [inj], seed=rng.randrange(1 << 30),
                                   expect="happy", extra_tag={"inject": inj["what"]}))
     # the recorded histories of the defects repaired so far (scripted gate sequences)
